@@ -139,6 +139,17 @@ fn plan(w: W, prec: Prec, t: Tier, seed: u64) -> Vec<Task> {
                     }
                 }
             }
+            // extremely unbalanced products (2^k + {-1,0,1}) x {1,2,3,17} are cheap (one operand is tiny): three more
+            // octaves of them in the quick tiers, where the transform is 10^4 times longer than the short operand
+            if !t.thorough {
+                for k in kmax + 1..=(kmax + 3).min(work_mul::EDGE_KMAX as u32) {
+                    for shape in 9..21 {
+                        for rep in 0..4 {
+                            push(work_mul::edges_encode(k, shape, rep), 1u64 << k);
+                        }
+                    }
+                }
+            }
         }
         W::Pattern => {
             let n = pick(1500, 4000, 40_000);
